@@ -79,6 +79,11 @@ def literals(rng, n_random, thorough):
     # literals longer than 255 / 1000 characters (digit counters that do not fit a byte)
     out += ["1" + "0" * 300, "1" + "0" * 310, "0." + "0" * 300 + "123", "0." + "0" * 330 + "5", "123456789" * 40 + "e-300", "9" * 1000 + "e-980",
             "0" * 300 + "1.5", "1." + "3" * 700, "-" + "7" * 260 + "." + "1" * 260 + "e-250x", "1e" + "0" * 300 + "5", "5e-" + "0" * 280 + "3"]
+    # a written exponent cancelled by leading / trailing zeros of the mantissa: the value is ordinary although the exponent field alone is
+    # far outside every format (400, 5000, 100003 zeros: exponent accumulators and digit counters of 3, 4, 5 and 6 decimal digits)
+    for z in (400, 5000, 100003):
+        out += ["0." + "0" * z + "1234e%d" % z, "25" + "0" * z + "e-%d" % z, "-0." + "0" * z + "5e+%d" % (z + 1), "1" + "0" * z + "." + "0" * 7 + "e-%d" % (z - 2),
+                "0." + "0" * z + "1234e%d" % (z - 30), "7" * min(z, 800) + "e-%d" % (min(z, 800) - 10)]
     # digit strings at the capacity of 64-, 63-, 53- and 32-bit accumulators (and one tenth of it), with the decimal point at
     # every position, every following digit, with and without exponent
     for base in (2 ** 64 - 1, 2 ** 64, (2 ** 64 - 1) // 10, 2 ** 63 - 1, 2 ** 63, (2 ** 63 - 1) // 10, 2 ** 53, 2 ** 53 + 1, 2 ** 32 - 1, (2 ** 32 - 1) // 10, 10 ** 19 - 1, 10 ** 18):
